@@ -423,6 +423,46 @@ def check_multi_member_burst(n=100):
     return out
 
 
+_FD0_CHILD = r"""
+import os, sys, socket
+sys.path.insert(0, %(repo)r)
+os.close(0)                                  # a daemon started with stdin closed
+a, b = socket.socketpair()
+if a.fileno() != 0:
+    a, b = b, a
+assert a.fileno() == 0, a.fileno()
+a.settimeout(5.0)
+import mido
+from mido.sockets import SocketPort, PortServer
+port = SocketPort('peer', 1, conn=a)
+b.sendall(bytes([0x90, 1, 2, 0xc1, 5]))
+got = [list(m.bytes()) for m in port.iter_pending()]
+b.close()
+rest = [list(m.bytes()) for m in port.iter_pending()]
+print('RESULT', got, rest, port.closed)
+"""
+
+
+def check_descriptor_zero():
+    """The connection's socket may have any descriptor number, 0 included (a process started
+    with stdin closed)."""
+    import subprocess
+    import sys
+    code = _FD0_CHILD % {'repo': core.REPO}
+    try:
+        r = subprocess.run([sys.executable, '-B', '-c', code], stdout=subprocess.PIPE, stderr=subprocess.PIPE, text=True,
+                           timeout=60)
+    except subprocess.TimeoutExpired:
+        return [('descriptor-zero/hang', {'kind': 'fd0'}, 'a SocketPort on descriptor 0 did not answer within 60 s')]
+    line = [x for x in r.stdout.splitlines() if x.startswith('RESULT')]
+    if not line:
+        return [('descriptor-zero/raises', {'kind': 'fd0'}, 'SocketPort on descriptor 0: %s' % (r.stderr.strip().splitlines() or ['?'])[-1][:200])]
+    if line[0] != 'RESULT [[144, 1, 2], [193, 5]] [] True':
+        return [('descriptor-zero/wrong-messages', {'kind': 'fd0'},
+                 'a SocketPort whose socket has descriptor 0 gave %s (expected the two messages, then nothing, closed)' % line[0][7:])]
+    return []
+
+
 def check_send_to_dead_peer():
     """Real TCP on the loopback interface: the peer goes away and the port only ever
     sends.  The write fails (OSError), the port closes itself - releasing the socket
@@ -680,6 +720,9 @@ def replay(case):
     if k == 'server':
         v, skip = check_server()
         return v and v[0][2]
+    if k == 'fd0':
+        v = check_descriptor_zero()
+        return v and v[0][2]
     if k == 'deadpeer':
         v, skip = check_send_to_dead_peer()
         return v and v[0][2]
@@ -739,6 +782,9 @@ CHECK_DEADLOCK FALSE
     for key, case, msg in check_two_connections_interleaved() + check_multi_member_burst(100) + check_multi_member_burst(3):
         ctx.violation('socket/' + key, case, msg)
     ctx.replayed += 3
+    for key, case, msg in check_descriptor_zero():
+        ctx.violation('socket/' + key, case, msg)
+    ctx.replayed += 1
     v, skipped = check_send_to_dead_peer()
     ctx.replayed += 1
     if skipped:
